@@ -91,7 +91,7 @@ def desc_of(N, disc, fates, retry, markers='last', pm=0, how=0, lifetime=4000, m
 
 def edge_keys(N):
     """The segments whose number sits at a width boundary, inside an object of N segments."""
-    return [k for k in (254, 255, 256, 257, 65534, 65535, 65536) if k < N]
+    return [k for k in (254, 255, 256, 257, 65534, 65535, 65536) if k < N] or [N - 1]
 
 
 def tie_encodings(ctx):
